@@ -186,3 +186,29 @@ def flag_names(ctx, R, f, adt_suffix='::Args'):
                 break
         break
     return n[0]
+
+
+def builders_finished(ctx, R):
+    """every FST builder the CLI creates is finished (footer + checksum written) on the paths that report success"""
+    from rules.common import ret_kind
+    b = ctx.bin
+    if b is None:
+        return
+    n = 0
+    for f in b.fn_list:
+        if f.from_expansion or not any((f.callee(t) or '').endswith(('Builder::<W>::new', 'Builder::<W>::new_type')) for _, t in f.calls()):
+            continue
+        bad = False
+        for p in explore(f, max_visits=1, havoc=True, limit=3000):
+            if p.end != 'return' or ret_kind(p.ret()) != 'ok':
+                continue
+            cs = path_calls(p, expand=False)
+            news = [c for c in cs if isinstance(c[2], str) and c[2].endswith(('Builder::<W>::new', 'Builder::<W>::new_type'))]
+            fins = [c for c in cs if isinstance(c[2], str) and c[2].endswith(('Builder::<W>::finish', 'Builder::<W>::into_inner'))]
+            if news:
+                n += 1
+                if not fins or fins[-1][0] < news[-1][0]:
+                    bad = True
+        ctx.check(R, not bad, 'finished:' + f.path, '%s creates an FST builder and reports success on a path that never finishes it: the output has no footer / checksum and is not an FST' % f.path.rsplit('::', 1)[-1], fn=f)
+    if n == 0:
+        ctx.undecided(R, 'finished', 'no builder creation followed to a successful return in the command line crate')
